@@ -13,6 +13,7 @@ import (
 	"bytes"
 	"crypto/hmac"
 	"crypto/sha256"
+	"encoding/binary"
 	"fmt"
 	"io"
 	"net"
@@ -28,6 +29,8 @@ import (
 	cj "github.com/refraction-networking/conjure/pkg/station/lib"
 	"github.com/refraction-networking/conjure/pkg/transports/wrapping/obfs4"
 	pb "github.com/refraction-networking/conjure/proto"
+	"google.golang.org/protobuf/proto"
+	"google.golang.org/protobuf/types/known/anypb"
 	"pgregory.net/rapid"
 	"verif/harness/vconn"
 	"verif/harness/vh"
@@ -463,6 +466,7 @@ type c04ObfsCase struct {
 	Early  int   `json:"early"`
 	Reply  int   `json:"reply"`
 	Others int   `json:"others"`
+	Via    string `json:"via,omitempty"` // "" = registration object built directly; "message-v4" / "message-v6" = one serialized dual-stack registration message through the station's real parse + ingest, the client then connects to the IPv4 / IPv6 phantom
 }
 
 type c04AddrConn struct {
@@ -476,9 +480,14 @@ func c04ObfsRun(e *aEnv, c c04ObfsCase) c04Result {
 	cj.VerifResetRegistry(e.rm)
 	e.ClearAnns()
 	spec := aRegSpec{Secret: c.Secret, TT: 2, Phantom: 0, Covert: e.cov.Addr()}
-	reg, err := e.aMakeReg(spec)
-	if err != nil {
-		return c04Result{key: "harness", msg: err.Error()}
+	v6 := c.Via == "message-v6"
+	var reg *cj.DecoyRegistration
+	var err error
+	if c.Via == "" {
+		reg, err = e.aMakeReg(spec)
+		if err != nil {
+			return c04Result{key: "harness", msg: err.Error()}
+		}
 	}
 	for i := 0; i < c.Others; i++ {
 		o, err := e.aMakeReg(aRegSpec{Secret: 20 + i, TT: []int{2, 0, 1}[i%3], PrefixID: 1, Phantom: 0, Covert: "127.0.0.1:1"})
@@ -487,7 +496,42 @@ func c04ObfsRun(e *aEnv, c c04ObfsCase) c04Result {
 		}
 		e.rm.AddRegistration(o)
 	}
-	e.rm.AddRegistration(reg)
+	if c.Via == "" {
+		e.rm.AddRegistration(reg)
+	} else {
+		// what the registrar forwards for a dual-stack client: one message, both families
+		params, perr := anypb.New(&pb.GenericTransportParams{RandomizeDstPort: proto.Bool(false)})
+		if perr != nil {
+			return c04Result{key: "harness", msg: perr.Error()}
+		}
+		w := &pb.C2SWrapper{
+			SharedSecret: aSecret(c.Secret),
+			RegistrationPayload: &pb.ClientToStation{
+				ClientLibVersion:    proto.Uint32(core.CurrentClientLibraryVersion()),
+				DecoyListGeneration: proto.Uint32(957),
+				CovertAddress:       proto.String(e.cov.Addr()),
+				V4Support:           proto.Bool(true),
+				V6Support:           proto.Bool(true),
+				Transport:           pb.TransportType_Obfs4.Enum(),
+				TransportParams:     params,
+				Flags:               &pb.RegistrationFlags{},
+			},
+			RegistrationSource:  pb.RegistrationSource_BidirectionalAPI.Enum(),
+			RegistrationAddress: []byte(net.IPv4(198, 51, 100, 7).To4()),
+			RegistrationResponse: &pb.RegistrationResponse{
+				Ipv4Addr: proto.Uint32(binary.BigEndian.Uint32(aPhantom(0, false).To4())),
+				Ipv6Addr: []byte(aPhantom(0, true).To16()),
+			},
+		}
+		b, merr := proto.Marshal(w)
+		if merr != nil {
+			return c04Result{key: "harness", msg: merr.Error()}
+		}
+		n, ierr := cj.VerifIngestMessage(e.rm, b)
+		if ierr != nil || n != 2 {
+			return c04Result{key: "harness", msg: fmt.Sprintf("dual-stack message: %d registrations, %v", n, ierr)}
+		}
+	}
 	e.ClearAnns()
 	app := aPayload(c.Secret, c.Early, "oup")
 	reply := aPayload(c.Secret, c.Reply, "odown")
@@ -496,6 +540,9 @@ func c04ObfsRun(e *aEnv, c c04ObfsCase) c04Result {
 	cliEnd, shimA := net.Pipe()     // client <-> shim
 	shimB, stationEnd := net.Pipe() // shim <-> station
 	sconn := c04AddrConn{Conn: stationEnd, remote: &net.TCPAddr{IP: net.IPv4(203, 0, 113, 77), Port: 5555}}
+	if v6 {
+		sconn.remote = &net.TCPAddr{IP: net.ParseIP("2001:db8::77"), Port: 5555}
+	}
 	pieces := 0
 	shimDone := make(chan struct{}, 2)
 	go func() { // client -> station, re-segmented
@@ -566,8 +613,11 @@ func c04ObfsRun(e *aEnv, c c04ObfsCase) c04Result {
 		oc.Close()
 		cdone <- cres{got: got, err: err}
 	}()
-	ok, pan, _ := e.aRunHandler(sconn, aPhantom(0, false), 40*time.Second)
+	ok, pan, _ := e.aRunHandler(sconn, aPhantom(0, v6), 40*time.Second)
 	res := c04Result{classes: []string{"transport:Obfs4"}, nontriv: len(c.Sizes) > 0}
+	if c.Via != "" {
+		res.classes = append(res.classes, "registered-by-"+c.Via)
+	}
 	if len(c.Sizes) > 0 {
 		res.classes = append(res.classes, "resegmented")
 	}
@@ -619,6 +669,14 @@ func c04ObfsRun(e *aEnv, c c04ObfsCase) c04Result {
 		res.key, res.msg = "downstream-bytes", fmt.Sprintf("client received differs from covert reply; %s", c04Diff(cr.got, reply))
 		return res
 	}
+	if reg == nil {
+		// registered through a message: identify the tracked registration by (phantom, identifier)
+		spec.V6 = v6
+		if reg, err = e.aMakeReg(spec); err != nil {
+			res.key, res.msg = "harness", err.Error()
+			return res
+		}
+	}
 	_, _, used := cj.VerifRegState(e.rm, reg)
 	if !used {
 		res.key, res.msg = "not-marked-used", "obfs4 registration not marked used"
@@ -628,9 +686,9 @@ func c04ObfsRun(e *aEnv, c c04ObfsCase) c04Result {
 }
 
 func TestVerif_C04_obfs4(t *testing.T) {
-	rec := vh.NewRec("C04", "obfs4", "live obfs4 client <-> segmenting shim <-> handleNewTCPConn <-> loopback covert; the shim forwards the client's bytes in pieces whose sizes cycle through a drawn list (1..4096), early data 0..20000 bytes, 0-3 other registrations; non-trivial = re-segmented; distinct by case")
+	rec := vh.NewRec("C04", "obfs4", "live obfs4 client <-> segmenting shim <-> handleNewTCPConn <-> loopback covert; the shim forwards the client's bytes in pieces whose sizes cycle through a drawn list (1..4096), early data 0..20000 bytes, 0-3 other registrations; the registration is built directly or (half of the cases) comes from one serialized dual-stack registration message through the station's real parse + ingest, the client then connecting to the IPv4 or the IPv6 phantom; non-trivial = re-segmented; distinct by case")
 	defer rec.Flush()
-	rec.Require("resegmented")
+	rec.Require("resegmented", "registered-by-message-v6", "registered-by-message-v4")
 	defer aSilenceStdout()()
 	e := c04Env(t)
 	run := func(tt vh.Fataler, c c04ObfsCase) {
@@ -655,7 +713,7 @@ func TestVerif_C04_obfs4(t *testing.T) {
 	maxFixed := vh.Pick(3, 40)
 	for k := 1; k <= maxFixed; k++ {
 		if vh.Mine(k) {
-			run(t, c04ObfsCase{Secret: k % 6, Sizes: []int{k}, Early: 100, Reply: 50, Others: k % 3})
+			run(t, c04ObfsCase{Secret: k % 6, Sizes: []int{k}, Early: 100, Reply: 50, Others: k % 3, Via: []string{"", "message-v6", "message-v4"}[k%3]})
 		}
 	}
 	n := vh.Pick(12, 400)
@@ -668,7 +726,8 @@ func TestVerif_C04_obfs4(t *testing.T) {
 		}
 		left--
 		c := c04ObfsCase{Secret: rapid.IntRange(0, 5).Draw(rt, "secret"), Early: rapid.SampledFrom([]int{0, 1, 100, 5000, 20000}).Draw(rt, "early"),
-			Reply: rapid.SampledFrom([]int{1, 50, 9000}).Draw(rt, "reply"), Others: rapid.IntRange(0, 3).Draw(rt, "others")}
+			Reply: rapid.SampledFrom([]int{1, 50, 9000}).Draw(rt, "reply"), Others: rapid.IntRange(0, 3).Draw(rt, "others"),
+			Via: rapid.SampledFrom([]string{"", "", "message-v4", "message-v6"}).Draw(rt, "via")}
 		k := rapid.IntRange(0, 6).Draw(rt, "nsizes")
 		for i := 0; i < k; i++ {
 			c.Sizes = append(c.Sizes, rapid.SampledFrom([]int{1, 2, 7, 31, 32, 33, 63, 64, 65, 100, 500, 1448, 4096}).Draw(rt, "size"))
